@@ -37,6 +37,24 @@ Definition address_row_ok (row : N * N * N * bytes * N * bytes) : bool :=
   (cls =? 0) && (ocls (address_string {| a_ton := ton; a_npi := npi; a_no := no |}) =? 0).
 Lemma address_rows_ok : forallb address_row_ok address_rows = true.
 Proof. vm_compute. reflexivity. Qed.
+(* the grid is complete: every TON in 0..7, every NPI in 0..15, every listed number *)
+Definition address_grid : list (N * N * bytes) :=
+  flat_map (fun ton => flat_map (fun npi => map (fun no => (ton, npi, no)) address_numbers) (map N.of_nat (seq 0 16))) (map N.of_nat (seq 0 8)).
+Definition beq_grid (a b : N * N * bytes) : bool :=
+  (fst (fst a) =? fst (fst b)) && (snd (fst a) =? snd (fst b)) && beq_bytes (snd a) (snd b).
+Lemma address_rows_complete :
+  beq_list beq_grid (map (fun r : N * N * N * bytes * N * bytes => let '(_, ton, npi, no, _, _) := r in (ton, npi, no)) address_rows) address_grid = true.
+Proof. vm_compute. reflexivity. Qed.
+Lemma address_numbers_loaded :
+  existsb (beq_bytes [48; 48]) address_numbers = true /\ existsb (beq_bytes []) address_numbers = true /\ existsb (beq_bytes [43]) address_numbers = true.
+Proof. repeat split; vm_compute; reflexivity. Qed.
+Lemma address_code n ton npi no cls s : In (n, ton, npi, no, cls, s) address_rows ->
+  cls = 0 /\ exists s', address_string {| a_ton := ton; a_npi := npi; a_no := no |} = Ok s'.
+Proof.
+  intros Hin. pose proof address_rows_ok as H. rewrite forallb_forall in H. specialize (H _ Hin).
+  unfold address_row_ok in H. apply andb_true_iff in H as [H1 H2]. apply N.eqb_eq in H1. split; [exact H1|].
+  destruct (address_string _) as [x| |]; cbn [ocls] in H2; try discriminate. eexists; reflexivity.
+Qed.
 
 Lemma data_coding_rows_complete : map fst data_coding_rows = all256.
 Proof. vm_compute. reflexivity. Qed.
